@@ -29,7 +29,7 @@ class Boom(Exception):
     pass
 
 
-def make(sig, method, blocking, log):
+def make(sig, method, blocking, log, tag="val"):
     from asynq.batching import DebugBatchItem
     src = SIGS[sig].format(self="self, " if method else "") + """
     params = dict(locals()); me = params.pop('self', None)
@@ -37,9 +37,10 @@ def make(sig, method, blocking, log):
     log.append(key)
     if blocking: yield DebugBatchItem("c13", 0)
     if params.get('a') == 3: raise Boom(key)
-    return ["val", key, len(log)]
+    if params.get('a') == 2: return None          # a legal result that is falsy / None ("find or None")
+    return [tag, key, len(log)]
 """
-    ns = {"log": log, "blocking": blocking, "DebugBatchItem": DebugBatchItem, "Boom": Boom}
+    ns = {"log": log, "blocking": blocking, "DebugBatchItem": DebugBatchItem, "Boom": Boom, "tag": tag}
     exec(src, ns)
     return ns["f"]
 
@@ -62,12 +63,12 @@ def to_call(c):
 
 def strat_hist(tier):
     call = st.fixed_dictionaries({"a": st.integers(0, 3), "b": st.one_of(st.none(), st.integers(0, 2)), "z": st.one_of(st.none(), st.integers(1, 3)),
-                                  "kw_a": st.booleans(), "kw_b": st.booleans(), "inst": st.integers(0, 2)})
+                                  "kw_a": st.booleans(), "kw_b": st.booleans(), "inst": st.integers(0, 2), "fn": st.integers(0, 1)})
     op = st.one_of(call.map(lambda c: ["call", c]), call.map(lambda c: ["call", c]), call.map(lambda c: ["call", c]),
                    st.tuples(st.just("drop"), st.integers(0, 2)).map(list))
     return st.fixed_dictionaries({
         "sig": st.sampled_from(sorted(SIGS)), "method": st.booleans(), "blocking": st.booleans(), "maxsize": st.integers(1, 4),
-        "which": st.sampled_from(["alru", "alru", "alru_keyfn", "per_instance"]),
+        "which": st.sampled_from(["alru", "alru", "alru_keyfn", "per_instance"]), "two_functions": st.booleans(),
         "ops": st.lists(op, min_size=2, max_size=14 if tier == "quick" else 40)})
 
 
@@ -80,9 +81,16 @@ def check_hist(case, ctx):
         method = True
     log = []
     raw = make(sig, method, blocking, log)
+    raw2 = make(sig, method, blocking, log, tag="val2")
+    two = bool(case.get("two_functions")) and which in ("alru", "per_instance")
+    deco2 = None
     first_only = which == "alru_keyfn"
     if which == "alru":
-        deco = alru_cache(maxsize=maxsize)(A()(raw))
+        # ONE decorator object, applied to one or two functions: each decorated function has a cache of its own
+        cached = alru_cache(maxsize=maxsize)
+        deco = cached(A()(raw))
+        if two:
+            deco2 = cached(A()(raw2))
     elif which == "alru_keyfn":
         # a custom key function: only the first non-self argument matters
         def key_fn(args, kwargs):
@@ -90,10 +98,13 @@ def check_hist(case, ctx):
             return ("K", pos[0] if pos else kwargs["a"]) + ((id(args[0]),) if method else ())
         deco = alru_cache(maxsize=maxsize, key_fn=key_fn)(A()(raw))
     else:
-        deco = acached_per_instance()(A()(raw))
+        cachedpi = acached_per_instance()
+        deco = cachedpi(A()(raw))
+        if two:
+            deco2 = cachedpi(A()(raw2))
     insts = []
     if method:
-        K = type("K", (), {"f": deco})
+        K = type("K", (), {"f": deco, "g": deco2 if deco2 is not None else deco})
         insts = [K(), K(), K()]
     psig = inspect.signature(raw)
     model = collections.OrderedDict()
@@ -110,18 +121,20 @@ def check_hist(case, ctx):
         if op[0] == "drop":
             if which != "per_instance" or insts[op[1]] is None:
                 continue
-            cache = deco.__acached_per_instance_cache__
-            n_before = len(cache)
             inst = fn = ba = None      # the harness must not keep the instance alive itself
             insts[op[1]] = None
             for k in [k for k in model if k[0] == op[1]]:
                 del model[k]
-            touched.discard(op[1])
-            live = len(touched)
-            if len(cache) != live:
-                gc.collect()       # only needed if something formed a cycle
-            if len(cache) != live:
-                bad("instance", "%d per-instance caches alive after an instance died, expected %d" % (len(cache), live))
+            touched = set(t for t in touched if t[0] != op[1])
+            for fi_, d_ in ((0, deco), (1, deco2)):
+                if d_ is None:
+                    continue
+                cache = d_.__acached_per_instance_cache__
+                live = len([t for t in touched if t[1] == fi_])
+                if len(cache) != live:
+                    gc.collect()       # only needed if something formed a cycle
+                if len(cache) != live:
+                    bad("instance", "%d per-instance caches alive after an instance died, expected %d" % (len(cache), live))
             classes.add("instance-death")
             continue
         c = dict(op[1])
@@ -131,32 +144,33 @@ def check_hist(case, ctx):
             c["z"] = None
         args, kwargs = to_call(c)
         which_inst = c["inst"] if method else None
+        fi = c.get("fn", 0) if two else 0
         if method:
             if insts[which_inst] is None:
                 continue
             inst = insts[which_inst]
-            fn = inst.f
+            fn = inst.g if fi else inst.f
             ba = psig.bind(inst, *args, **kwargs)
         else:
-            fn = deco
+            fn = deco2 if fi else deco
             ba = psig.bind(*args, **kwargs)
         ba.apply_defaults()
         items = sorted((k, v) for k, v in ba.arguments.items() if k != "self")
         pkey = [list(kv) for kv in items]
         if first_only:
-            nkey = (which_inst, ("a", dict(items)["a"]))
+            nkey = (which_inst, ("a", dict(items)["a"]), fi)
         else:
-            nkey = (which_inst, tuple(items))
+            nkey = (which_inst, tuple(items), fi)
         spelling = (tuple(args), tuple(sorted(kwargs.items())))
         if nkey in seen_norm and seen_norm[nkey] != spelling:
             classes.add("two-spellings")
         seen_norm.setdefault(nkey, spelling)
         for other in seen_norm:
-            if other[0] == nkey[0] and other != nkey and not first_only and sum(1 for x, y in zip(other[1], nkey[1]) if x != y) == 1:
+            if other[0] == nkey[0] and other[2] == nkey[2] and other != nkey and not first_only and sum(1 for x, y in zip(other[1], nkey[1]) if x != y) == 1:
                 classes.add("differ-in-one-parameter")
         before = len(log)
         if method:
-            touched.add(which_inst)
+            touched.add((which_inst, fi))
         try:
             got = ["ok", fn(*args, **kwargs)]
         except Boom as e:
@@ -175,16 +189,22 @@ def check_hist(case, ctx):
                 exp = ["exc", pkey]
                 classes.add("raise-not-cached")
             else:
-                exp = ["ok", ["val", pkey, before + 1]]
-                if which != "per_instance" and len(model) >= maxsize:
-                    old, _ = model.popitem(last=False)
+                exp = ["ok", None if dict(items).get("a") == 2 else ["val2" if fi else "val", pkey, before + 1]]
+                mine = [k for k in model if k[2] == fi]
+                if which != "per_instance" and len(mine) >= maxsize:
+                    old = mine[0]                     # least recently used entry of THIS function's cache
+                    del model[old]
                     classes.add("eviction")
                     classes.add("evicted:%r" % (old,))
                 model[nkey] = exp[1]
+                if exp[1] is None:
+                    classes.add("none-result-cached")
+                if two:
+                    classes.add("two-functions-one-decorator")
         if (got, ran) != (exp, exp_ran):
             bad("reference", "call %s%r %r returned %r (body %s), reference cache says %r (body %s)" % ("inst%d." % which_inst if method else "", tuple(args), kwargs, got, "ran" if ran else "did not run", exp, "runs" if exp_ran else "does not run"))
             break
-    for c in ("hit", "eviction", "re-miss-after-eviction", "two-spellings", "differ-in-one-parameter", "raise-not-cached", "instance-death"):
+    for c in ("hit", "eviction", "re-miss-after-eviction", "two-spellings", "differ-in-one-parameter", "raise-not-cached", "instance-death", "none-result-cached", "two-functions-one-decorator"):
         ctx.label(c, c in classes)
     ctx.label("which=" + which)
     ctx.nontrivial(case, ("hit" in classes and "re-miss-after-eviction" in classes) or "two-spellings" in classes or "differ-in-one-parameter" in classes)
